@@ -36,7 +36,7 @@ BITFACTS = '''proof {
         }''' % (ISF('f'), ISF('f'), ISF('f'), ' && '.join('%s & %s == 0' % (a, b) for a in FB + ['0x8u64'] for b in FB if a != b))
 
 
-def base_stmt(root):
+def base_stmt(root, PTS=PTS, SCOPE=SCOPE):
     """the statement that initialises `opts` with the flags requested unconditionally, as it stands in the function (must be `FsOptions::A | FsOptions::B ..`)"""
     import re
     from vx import extract as X
@@ -47,7 +47,7 @@ def base_stmt(root):
     return m[0]
 
 
-def base_hint(root):
+def base_hint(root, PTS=PTS, SCOPE=SCOPE):
     """proof hint GENERATED from the flags the function requests unconditionally (the initialiser of `opts`): their values (read from the bitflags block
     and the constants it references) contain none of the five feature bits.  Not a contract: if a feature bit were requested unconditionally
     this fact is false, the hint is rejected and the [C12.pt.init.want.*] postcondition fails."""
@@ -59,7 +59,7 @@ def base_hint(root):
     for (name, expr) in consts:
         m = re.search(r'(?m)^(?:pub )?const %s\s*:\s*u64\s*=\s*([^;]+);' % re.escape(expr.strip()), src.src)
         val[name] = (m.group(1).strip() if m else expr.strip())
-    names = re.findall(r'FsOptions::(\w+)', base_stmt(root))
+    names = re.findall(r'FsOptions::(\w+)', base_stmt(root, PTS, SCOPE))
     word = ' | '.join(('%su64' % val[n]) if re.match(r'^0x[0-9a-fA-F_]+$', val[n]) else '(%s)' % val[n] for n in names)
     try:
         base = 0
@@ -74,19 +74,11 @@ def base_hint(root):
 
 
 def unit(root='/repo'):
-    req, ens = [], []
-    for (sw, flag, want) in FEATURES:
-        neg = 'hasf(capable.bits, FsOptions::%s.bits) && %s' % (flag, want)
-        req.append('forall|b: bool| #[trigger] self.%s.may_store(b) <==> (b && %s) // [C12.pt.init.switch.%s] the switch may only be turned ON, and only when the feature is offered and wanted'
-                   % (sw, neg, sw))
-        ens.append('res is Ok ==> (hasf(res->Ok_0.bits, FsOptions::%s.bits) <==> (%s)) // [C12.pt.init.want.%s] the feature is requested from the server exactly when its switch may be on'
-                   % (flag, neg, sw))
-    items = flagsmodel.items(root, ABI, 'FsOptions') + [
+    return build(root, 'ptinit', PTS, SCOPE, 'self.cfg', 'pt', [
         Copy(CFG, r'pub enum CachePolicy\b', prefix='#[derive(Clone, Copy, PartialEq, Eq)]'),
         Copy(CFG, r'pub struct Config\b'),
         Raw('''
 pub trait BitmapSlice {}
-pub open spec fn hasf(w: u64, f: u64) -> bool { w & f == f }
 // PassthroughFs: the configuration and the five behaviour switches (the other fields are fd tables and maps)
 pub struct PassthroughFs<S> { pub cfg: Config, pub writeback: AtomicBool, pub no_open: AtomicBool, pub no_opendir: AtomicBool,
     pub killpriv_v2: AtomicBool, pub perfile_dax: AtomicBool, pub phantom: PhantomData<S> }
@@ -94,12 +86,25 @@ impl<S: BitmapSlice + Send + Sync> PassthroughFs<S> {
     // import(): opens the export root and registers it (syscalls) - not extracted, no contract
     #[verifier::external_body] pub fn import(&self) -> (r: io::Result<()>) { unimplemented!() }
 }
-'''),
-        Group('impl<S: BitmapSlice + Send + Sync> PassthroughFs<S> {', [
-            Fn(PTS, SCOPE, 'init', ret_name='res', props=['C12'], canary=True,
+''')], 'impl<S: BitmapSlice + Send + Sync> PassthroughFs<S> {')
+
+
+def build(root, uname, SRC, SCOPE_, cfg, tag, decls, implhdr, dax_want='true', more=()):
+    """the same contract for PassthroughFs::init (unit ptinit) and OverlayFs::init (unit ovlinit): `cfg` is the receiver's configuration field"""
+    req, ens = [], []
+    for (sw, flag, want) in FEATURES:
+        want = (dax_want if sw == 'perfile_dax' else want).replace('self.cfg', cfg)
+        neg = 'hasf(capable.bits, FsOptions::%s.bits) && %s' % (flag, want)
+        req.append('forall|b: bool| #[trigger] self.%s.may_store(b) <==> (b && %s) // [C12.%s.init.switch.%s] the switch may only be turned ON, and only when the feature is offered and wanted'
+                   % (sw, neg, tag, sw))
+        ens.append('res is Ok ==> (hasf(res->Ok_0.bits, FsOptions::%s.bits) <==> (%s)) // [C12.%s.init.want.%s] the feature is requested from the server exactly when its switch may be on'
+                   % (flag, neg, tag, sw))
+    items = flagsmodel.items(root, ABI, 'FsOptions') + [Raw('pub open spec fn hasf(w: u64, f: u64) -> bool { w & f == f }')] + list(decls) + [
+        Group(implhdr, [
+            Fn(SRC, SCOPE_, 'init', ret_name='res', props=['C12'], canary=True,
                body_resub=[(r'\bopts \|= (FsOptions::\w+);', r'opts = opts | \1;', 'every: bitflags a |= b is a = a | b')],
                requires=req, ensures=ens,
-               splices=[('^', 'after', BITFACTS), (base_stmt(root), 'after', base_hint(root))]),
-        ]),
+               splices=[('^', 'after', BITFACTS), (base_stmt(root, SRC, SCOPE_), 'after', base_hint(root, SRC, SCOPE_))]),
+        ] + list(more)),
     ]
-    return Unit('ptinit', items, preludes=['base.rs', 'stdmodel.rs'], generic_tags={'store': ['C12']})
+    return Unit(uname, items, preludes=['base.rs', 'stdmodel.rs'], generic_tags={'store': ['C12']})
